@@ -144,6 +144,28 @@ def step (_ : Unit) (ws : List String) : Unit × String :=
     let L := { readCell w 3 with lo := limL.1, hi := limL.2 }
     let r := doGhostGradientCalculation i L (fl w[2]!)
     ((), s!"E {showQ (r.grad.along i)} {showLim r.lo r.hi} #ggrad")
+  else if op == "slim" && n == 34 then
+    let dx : V3 Float := readV3 w 1
+    let lim := readLim w 24
+    let h : HV Float :=
+      { prim := readQ w 4
+        grad := ⟨readV3 w 9, readV3 w 12, readV3 w 15, readV3 w 18, readV3 w 21⟩
+        lo := lim.1, hi := lim.2, cons := zeroQ, dcons := zeroQ, acc := ⟨0.0, 0.0, 0.0⟩, eterm := 0.0 }
+    let G := applySlopeLimiter dblMax h dx
+    let sv (v : V3 Float) : String := s!"{showF v.x} {showF v.y} {showF v.z}"
+    let tags := [(slopeAlphaTag dblMax h.prim.d h.grad.d h.lo.d h.hi.d dx).2,
+      (slopeAlphaTag dblMax h.prim.v.x h.grad.vx h.lo.v.x h.hi.v.x dx).2,
+      (slopeAlphaTag dblMax h.prim.v.y h.grad.vy h.lo.v.y h.hi.v.y dx).2,
+      (slopeAlphaTag dblMax h.prim.v.z h.grad.vz h.lo.v.z h.hi.v.z dx).2,
+      (slopeAlphaTag dblMax h.prim.e h.grad.e h.lo.e h.hi.e dx).2]
+    let has (k : Nat) : Bool := tags.any (fun t => t / k % 2 == 1)
+    let tag := (if has 1 then "z" else "") ++ (if has 4 then "n" else "") ++ (if has 8 then "c" else "")
+      ++ (if tags.any (fun t => t / 4 == 0) then "p" else "")
+    ((), s!"S {sv G.d} {sv G.vx} {sv G.vy} {sv G.vz} {sv G.e} #sl{tag}")
+  else if op == "pred" && n == 26 then
+    let G : Grad Float := ⟨readV3 w 8, readV3 w 11, readV3 w 14, readV3 w 17, readV3 w 20⟩
+    let r := predictPrimitiveTag (fl w[1]!) ovfThr (readQ w 3) G (readV3 w 23) (fl w[2]!)
+    ((), s!"Q {showQ r.1} #pr{r.2}")
   else if op == "ucons" && n == 16 then
     let h : HV Float :=
       { prim := zeroQ, grad := Grad.zero, lo := zeroQ, hi := zeroQ, cons := readQ w 2,
